@@ -45,12 +45,14 @@ mod vk_counter {
     #[kani::stub(std::sync::atomic::Atomic::<usize>::fetch_add, a_faa)]
     #[kani::stub(std::sync::atomic::Atomic::<usize>::load, a_load)]
     #[kani::stub(std::sync::atomic::Atomic::<usize>::store, a_store)]
+    #[kani::stub(std::sync::atomic::Atomic::<usize>::swap, a_swap)]
+    #[kani::stub(std::sync::atomic::Atomic::<usize>::fetch_sub, a_fsub)]
     fn counter_clone_atomic() {
         let c = AtomicCounter::new();
         let mut e = c.clone();
         let s = st();
         kani::cover!(s.n == 1, "one atomic operation");
-        assert!(s.n == 1 && s.log[0].kind == 2, "[C19 C07 ctr-clone-atomic] cloning a counter reads it with exactly one atomic load (other threads may be pulling from the original)");
+        assert!(s.n == 1 && s.log[0].kind == 2, "[C19 C07 C01 ctr-clone-atomic] cloning a counter reads it with exactly one atomic load and never writes it (other threads may be pulling from the original)");
         assert!(*e.current.get_mut() == s.log[0].ret, "[C19 ctr-clone] a cloned counter starts at the value that load returned");
     }
 
